@@ -376,12 +376,12 @@ pub fn def() -> PropertyDef {
         ],
         exhaustive: false,
         subs: vec![
-            hostile_sub::<F>((8000, 250_000)),
-            hostile_sub::<R>((1500, 30_000)),
+            hostile_sub::<F>((20_000, 300_000)),
+            hostile_sub::<R>((3000, 40_000)),
             sub(
                 "R/raw-bytes",
                 no_fixed,
-                (20_000, 500_000),
+                (200_000, 3_000_000),
                 |_: &RunCtx, _: Option<&()>| prop::collection::vec(any::<u8>(), 0..600).prop_map(|bytes| RawSpec { bytes }),
                 raw_oracle::<R>,
             ),
